@@ -114,3 +114,10 @@ Proof.
   eexists. split; [vm_compute; reflexivity|].
   split; [apply wbb_wb; vm_compute; reflexivity | vm_compute; reflexivity].
 Qed.
+
+(* ---- the model's state space is the code's declared state ----
+   (theories/StateInst.v: package-level variables and struct fields listed by tools/facts on every
+   run; the models keep no state between operations other than these components) *)
+From Whawty Require StateInst.
+Theorem C13_sasl_state_inventory : StateInst.sasl_state_inventory.
+Proof. exact StateInst.sasl_state_inventory_holds. Qed.
